@@ -8,31 +8,28 @@ def run(ctx):
     # 1. design level: the reference model satisfies the property on its ghost state
     ctx.mc("MC_Reassembler")
     # 2. spec -> impl: all operation sequences of length Depth over the unit alphabet
-    #    (depth 4 is 10.5 million sequences, 6.8 GB of text: more than the replay can hold - depth 3 is exhaustive, depths 4
-    #    and 6 are sampled in the thorough tier)
+    #    (depth 4 is 10.5 million sequences, 6.8 GB of text: more than the replay can hold - depth 3 is exhaustive in both tiers; longer histories are covered by the random
+    #    histories of stage 3)
     cfg = ctx.make_cfg("Gen_Reassembler.cfg", "Gen_Reassembler_run.cfg", {"Depth": 3})
     beh, _ = ctx.gen("Gen_Reassembler", "gen_reasm.txt", cfg=cfg)
     ctx.replay_stage("Reassembler", ctx.harness(hb, ["reasm-replay", beh, ctx.tier]), beh)
-    if not q:
-        for depth, num in ((4, 300000), (6, 200000)):
-            cfg = ctx.make_cfg("Gen_Reassembler.cfg", "Gen_Reassembler_run%d.cfg" % depth, {"Depth": depth})
-            beh, _ = ctx.gen("Gen_Reassembler", "gen_reasm_%d.txt" % depth, cfg=cfg, simulate=(num, depth + 1))
-            ctx.replay_stage("Reassembler (sampled, depth %d)" % depth, ctx.harness(hb, ["reasm-replay", beh, ctx.tier]), beh)
 
-    cfg = ctx.make_cfg("Gen_RangeSet.cfg", "Gen_RangeSet_run.cfg", {"Depth": 3, "MaxV": 5 if q else 6})
+    # the generated sets of the other structures: the quick sizes plus all three capacity limits in the thorough tier (the
+    # next larger alphabets / depths produce more text than the replay holds in memory on this machine)
+    cfg = ctx.make_cfg("Gen_RangeSet.cfg", "Gen_RangeSet_run.cfg", {"Depth": 3, "MaxV": 5})
     beh, _ = ctx.gen("Gen_RangeSet", "gen_rangeset.txt", cfg=cfg)
-    ctx.replay_stage("IntervalSet", ctx.harness(hb, ["ranges-replay", "rangeset", beh, 5 if q else 6]), beh)
+    ctx.replay_stage("IntervalSet", ctx.harness(hb, ["ranges-replay", "rangeset", beh, 5]), beh)
 
     for limit in ([2] if q else [1, 2, 3]):
-        cfg = ctx.make_cfg("Gen_AckRanges.cfg", "Gen_AckRanges_run.cfg", {"Depth": 3 if q or limit == 3 else 4, "Limit": limit, "MaxV": 6 if limit < 3 else 8})
+        cfg = ctx.make_cfg("Gen_AckRanges.cfg", "Gen_AckRanges_run.cfg", {"Depth": 3, "Limit": limit, "MaxV": 6 if limit < 3 else 8})
         beh, _ = ctx.gen("Gen_RangeSet", "gen_ackranges.txt", cfg=cfg)
         ctx.replay_stage("ack::Ranges(limit %d)" % limit, ctx.harness(hb, ["ranges-replay", "ackranges", beh, 6 if limit < 3 else 8, limit]), beh)
 
-    cfg = ctx.make_cfg("Gen_PnMap.cfg", "Gen_PnMap_run.cfg", {"Depth": 3 if q else 4})
+    cfg = ctx.make_cfg("Gen_PnMap.cfg", "Gen_PnMap_run.cfg", {"Depth": 3})
     beh, _ = ctx.gen("Gen_PnMap", "gen_pnmap.txt", cfg=cfg)
     ctx.replay_stage("packet::number::Map", ctx.harness(hb, ["ranges-replay", "pnmap", beh, 17]), beh)
 
-    cfg = ctx.make_cfg("Gen_SlidingWindow.cfg", "Gen_SlidingWindow_run.cfg", {"Depth": 4 if q else 5})
+    cfg = ctx.make_cfg("Gen_SlidingWindow.cfg", "Gen_SlidingWindow_run.cfg", {"Depth": 4})
     beh, _ = ctx.gen("Gen_SlidingWindow", "gen_window.txt", cfg=cfg)
     ctx.replay_stage("SlidingWindow", ctx.harness(hb, ["ranges-replay", "window", beh, 400]), beh)
 
